@@ -2,10 +2,14 @@ package main
 
 import (
 	"context"
+	"errors"
 	"fmt"
 	"hash/fnv"
 	"io"
 	"strings"
+	"sync"
+	"sync/atomic"
+	"time"
 
 	"github.com/kubewharf/kubebrain/pkg/storage"
 )
@@ -23,6 +27,24 @@ func (s *engineSuite) close() {
 	cleanupTmp()
 }
 
+// flakyCtx is alive at its first liveness poll and cancelled at every later one (a caller that goes away in the
+// middle of a commit).
+type flakyCtx struct {
+	context.Context
+	polls int32
+	done  chan struct{}
+	once  sync.Once
+}
+
+func (c *flakyCtx) Err() error {
+	if atomic.AddInt32(&c.polls, 1) == 1 {
+		return nil
+	}
+	c.once.Do(func() { close(c.done) })
+	return context.Canceled
+}
+func (c *flakyCtx) Done() <-chan struct{} { return c.done }
+
 func commitLine(err error) string {
 	if err == nil {
 		return "ok"
@@ -39,6 +61,9 @@ func commitLine(err error) string {
 	}
 	if err == storage.ErrKeyNotFound {
 		return "nf"
+	}
+	if errors.Is(err, storage.ErrUncertainResult) {
+		return "err uncertain"
 	}
 	return "err " + classify(err)
 }
@@ -66,8 +91,29 @@ func (s *engineSuite) do(t []string) string {
 	ctx := context.Background()
 	switch t[0] {
 	case "batch":
-		b := s.kv.BeginBatchWrite()
+		// batch <ops…> [ctx=cancelled|flaky|deadline]: the context handed to Commit is already cancelled / dies
+		// after its first liveness poll / is past its deadline (engines that honour the context may refuse or
+		// report an unknown outcome; whatever they answer, the batch is applied entirely or not at all)
+		cctx := ctx
+		var ops []string
 		for _, op := range t[1:] {
+			switch op {
+			case "ctx=cancelled":
+				c2, cancel := context.WithCancel(ctx)
+				cancel()
+				cctx = c2
+			case "ctx=deadline":
+				c2, cancel := context.WithDeadline(ctx, time.Now().Add(-time.Second))
+				defer cancel()
+				cctx = c2
+			case "ctx=flaky":
+				cctx = &flakyCtx{Context: ctx, done: make(chan struct{})}
+			default:
+				ops = append(ops, op)
+			}
+		}
+		b := s.kv.BeginBatchWrite()
+		for _, op := range ops {
 			f := strings.Split(op, ":")
 			switch f[0] {
 			case "pine":
@@ -82,7 +128,7 @@ func (s *engineSuite) do(t []string) string {
 				panic("bad batch op " + op)
 			}
 		}
-		return "batch " + commitLine(b.Commit(ctx))
+		return "batch " + commitLine(b.Commit(cctx))
 	case "bigbatch":
 		// bigbatch <n> <hexprefix>: ONE batch of n puts under the prefix followed by a compare-and-swap on a missing
 		// key (its condition fails): whatever error the engine reports (failed condition, or "transaction too big"),
